@@ -67,3 +67,17 @@ Theorem C07_whole_image_memory_list : forall c dirs lg s',
     nth_error dirs 2 = Some (MiniDump.T_MEMLIST, {| MemWriter.l_rva := N.of_nat off; MemWriter.l_size := (4 + N.of_nat (Image.MEMDESC_SZ * length (blocks ++ appd)))%N |}).
 Proof. exact ImageThreads.image_memory_list. Qed.
 Print Assumptions C07_whole_image_memory_list.
+
+(* End to end (world -> content -> image): whenever the content of the dump realises what the structural model says about a world
+   - thread by thread the stored stack has the model's block address and length, the stored window is the model's window around
+   the crash instruction pointer - the memory list of the FINAL image names exactly the regions [memory_list] prescribes for that
+   world, in its order, and nothing else. *)
+Theorem C07_whole_image_memory_list_of_world : forall c ms tbs app dirs lg s',
+  Image.image c MiniDump.empty_wst = MemWriter.Ok ((dirs, lg), s') -> Hoare.small (Hoare.blen s') ->
+  Forall2 (ImageThreads.realises_thread c ms) (Image.ic_threads c) tbs -> map ImageThreads.region_extent (Image.ic_app c) = app ->
+  exists descs off,
+    map ImageThreads.desc_extent descs = memory_list ms tbs app /\
+    slice (Writer.w_buf s') off (4 + Image.MEMDESC_SZ * length descs) = le 4 (N.of_nat (length descs)) ++ concat (map MiniDump.enc_memdesc descs) /\
+    nth_error dirs 2 = Some (MiniDump.T_MEMLIST, {| MemWriter.l_rva := N.of_nat off; MemWriter.l_size := (4 + N.of_nat (Image.MEMDESC_SZ * length descs))%N |}).
+Proof. exact ImageThreads.image_memory_list_of_world. Qed.
+Print Assumptions C07_whole_image_memory_list_of_world.
